@@ -80,6 +80,12 @@ func (r *Run) Execute(or OracleSet) (err error) {
 	for _, wo := range cfg.World.Objects {
 		r.kube.Seed(wo.Kind, decodeObj(wo.Kind, wo.Obj))
 	}
+	if os.Getenv("HAPSIM_REPLAY") == "" || os.Getenv("HAPSIM_VALIDATE_AVOID") != "" {
+		// (replays of recorded findings are outside the constrained space by definition)
+		if why := historyViolatesAvoid(cfg); why != "" {
+			return invalidRun(why)
+		}
+	}
 	if why := r.kube.invalidWorld(); why != "" {
 		// a minimisation candidate that dropped an object the rest depends on
 		return invalidRun(why)
@@ -236,7 +242,9 @@ func (r *Run) runTask(g *rt.ParkedGate) {
 	r.acmeBeforeReconcile()
 	r.curArrival = g.At
 	r.thisFullItem = r.curFullItem // (set by the prologue of the task that is parked at this gate)
+	r.inReconcile, r.midRecSecret = true, false
 	r.runGate(g)
+	r.inReconcile = false
 	wrote := r.rt.Disk.TakeLog()
 	r.cur.adminCmds = len(r.ha.AdminCmds) - cmds0
 	r.cur.reloadedSync = r.ha.Reloads > reloads0
@@ -289,12 +297,23 @@ func (r *Run) afterReconcile(informersLagging bool) {
 	if or.FreshEveryRec && !r.cur.failed && !informersLagging && !r.kube.Pending() && !r.kube.fullEventPending {
 		r.checkFresh("C05", "every-update")
 	}
+	secretAhead := false
+	for _, a := range r.kube.PendingActions() {
+		if strings.HasSuffix(a, ":Secret") {
+			secretAhead = true // a Secret informer store is ahead of its notification
+		}
+	}
+	if r.midRecSecret {
+		secretAhead = true // ... or its notification arrived while this update was running: the next update owns it
+	}
 	if or.EffectiveStep && !r.cur.failed && !r.reloadPending && r.ha.Loaded != nil && !r.cur.reloadedSync &&
-		!(r.cur.noop && (informersLagging || r.kube.Pending())) {
+		!(r.cur.noop && (informersLagging || r.kube.Pending())) && !secretAhead {
 		// applied (or judged a no-op) without a reload: running state must equal the files.
 		// Not judged: a no-op that ran while an informer store was ahead of its notifications;
 		// a secret read for a declaration that is then discarded rewrites the certificate file
-		// early, and the update that notification brings is the one that applies it.
+		// early, and the update that notification brings is the one that applies it. For the same
+		// reason no update is judged while a Secret store is ahead of its notification: a certificate
+		// file may already hold what the next update will apply (the sync-point oracle sees the end).
 		r.checkEffective(or.Property, "after-dynamic-update")
 	}
 	if or.Capacity && (r.cur.failed || r.cur.faults > 0) {
